@@ -95,6 +95,9 @@ def sensitivity(only=None, tier="quick"):
         if only and name not in only:
             continue
         meta = json.load(open(meta_p))
+        if meta.get("expect") == "neutralised":
+            print("SELFTEST sensitivity %s: skipped (neutralised: %s)" % (name, meta.get("neutralised", "")[:120]))
+            continue
         d, err = scratch_repo(patch)
         if d is None:
             print("SELFTEST sensitivity %s: patch does not apply: %s" % (name, err[:300]))
